@@ -274,3 +274,30 @@ Definition spec_get_term (t : pathterm pyval) (data : option pyval) (return_path
   | Some st => Some (spec_path_get st data return_paths)
   | None => None
   end.
+
+(* ---- typed terms back to API terms (what the theorems quantify over) ---- *)
+
+Definition sarg_term (a : sarg) : carg pyval :=
+  match a with SLit v => KLit v | SCond t => KCond (qterm t) end.
+Definition osarg_term (a : option sarg) : option (carg pyval) := option_map sarg_term a.
+
+Definition spterm_term (t : spterm) : pterm pyval :=
+  match t with
+  | SPrim v => PtPrim v
+  | STMap k v c l => PtMap (osarg_term k) (osarg_term v) (osarg_term c) l
+  | STList i v c l => PtList (osarg_term i) (osarg_term v) (osarg_term c) l
+  | STMol k i v lc mc c l => PtMol (osarg_term k) (osarg_term i) (osarg_term v) (osarg_term lc) (osarg_term mc) (osarg_term c) l
+  end.
+
+Definition spathterm_term (t : spathterm) : pathterm pyval :=
+  {| pt_parts := map spterm_term (st_parts t); pt_mods := st_mods t; pt_src := st_src t |}.
+
+Definition osarg_ok (a : option sarg) : bool :=
+  match a with Some (SCond t) => qtree_ok t | _ => true end.
+Definition spterm_ok (t : spterm) : bool :=
+  match t with
+  | SPrim _ => true
+  | STMap k v c _ | STList k v c _ => osarg_ok k && osarg_ok v && osarg_ok c
+  | STMol k i v lc mc c _ => osarg_ok k && osarg_ok i && osarg_ok v && osarg_ok lc && osarg_ok mc && osarg_ok c
+  end.
+Definition spathterm_ok (t : spathterm) : bool := forallb spterm_ok (st_parts t).
